@@ -12,7 +12,16 @@ Two routes take the first-round document back to the parser:
     target dict itself, so that all users of a class and its `definitions` entry are ONE dict, which is what
     json_ref_dict's `materialize` hands to the command line's parser - goes through `parse` (top-level schema,
     then every member of `definitions`) and `serialize_json(*elements)`.
-The property speaks about "parsing that document again": both routes have to give the first-round document back."""
+The property speaks about "parsing that document again": both routes have to give the first-round document back.
+
+Three clauses are judged on the real code alone, whatever the model says (they are what the statement says, not what the
+theorems say):
+  * the re-parsed ELEMENT declares what the parsed one declared ("no supported keyword value is lost, altered or invented"):
+    two documents can be identical while a value has silently gone from both of them, so the elements are compared, too;
+  * a listed region explains a difference only where the model predicts that very difference (same first- and second-round
+    documents and trees as the real code); a difference the model does not predict is a new failure, wherever it occurs;
+  * the generated Python source executes on its own imports ("executing the generated Python source yields classes"): a
+    module that does not execute yields no classes.  Only the description-quoting hazards (C07's finding) are left aside."""
 import json
 import random
 
@@ -173,6 +182,41 @@ def duplicate_class_names(doc):
 
 def bump(stats, key, n=1):
     stats[key] = stats.get(key, 0) + n
+
+
+def declared(dump):
+    """An element dump without the keywords that are present but declare nothing: an empty `properties` map and an empty
+    `required` list (the serializer drops both on purpose; there is no property, no required name - no keyword VALUE - to
+    lose).  Everything else is kept: names, flags, order, literals with their Python types."""
+    if isinstance(dump, list):
+        return [declared(x) for x in dump]
+    if not isinstance(dump, dict):
+        return dump
+    out = {k: declared(v) for k, v in dump.items()}
+    kw = out.get("kw")
+    if isinstance(kw, dict):
+        if kw.get("hasProps") and not out.get("props"):
+            kw.pop("hasProps")
+        if kw.get("required") == []:
+            kw.pop("required")
+    return out
+
+
+def only_empty_keywords_differ(dump1, dump2):
+    return dump1 != dump2 and declared(dump1) == declared(dump2)
+
+
+def hazardous_descriptions(schema):
+    """descriptions that do not survive a triple-quoted docstring (C07-docstring-quoting; C02 counts them as its own region):
+    the only reason, known on the unchanged library, for which a generated module is not valid Python"""
+    if isinstance(schema, dict):
+        d = schema.get("description")
+        if isinstance(d, str) and (d == "" or '"' in d or "\\" in d or "\r" in d or "\x00" in d):
+            return True
+        return any(hazardous_descriptions(v) for v in schema.values())
+    if isinstance(schema, list):
+        return any(hazardous_descriptions(v) for v in schema)
+    return False
 
 
 def document_route(case, j1, j2, out, stats):
@@ -340,6 +384,73 @@ def copy_of(x):
     return json.loads(json.dumps(x))
 
 
+LEAVES = [{"type": "string"}, {"type": "integer"}, {"type": "number", "minimum": 0}, {"type": "boolean"}, {"type": "null"},
+          {"type": "string", "maxLength": 3}, {"type": "integer", "default": 1}]
+
+
+def lone_annotation_family(rng):
+    """The generated module's imports are worked out from what its declarations use.  Here ONE class has ONE property, whose
+    schema takes every shape that has an annotation of its own - untyped, each scalar, arrays of every items / additionalItems /
+    contains form (the empty tuple, open and closed, among them), type lists, compositions, `not`, another class - so that the
+    names the module needs are exactly the names this one annotation needs; then the same shape required, with a default, and
+    one level down (array of it, class of it).  Such a module has to execute on its own imports and give the parsed classes."""
+    def shapes():
+        x, y = (copy_of(v) for v in rng.sample(LEAVES, 2))
+        yield "untyped", {}
+        yield "true", True
+        yield "untyped-keyword", {"minLength": 1}
+        for leaf in LEAVES[:5]:
+            yield "scalar-" + leaf["type"], copy_of(leaf)
+        yield "array-bare", {"type": "array"}
+        yield "array-items-any", {"type": "array", "items": {}}
+        yield "array-items-true", {"type": "array", "items": True}
+        yield "array-items", {"type": "array", "items": x}
+        yield "array-of-arrays", {"type": "array", "items": {"type": "array"}}
+        yield "tuple-empty-open", {"type": "array", "items": []}
+        yield "tuple-empty-closed", {"type": "array", "items": [], "additionalItems": False}
+        yield "tuple-empty-additional", {"type": "array", "items": [], "additionalItems": x}
+        yield "tuple-one-open", {"type": "array", "items": [x]}
+        yield "tuple-one-closed", {"type": "array", "items": [x], "additionalItems": False}
+        yield "tuple-two-closed", {"type": "array", "items": [x, y], "additionalItems": False}
+        yield "tuple-one-additional", {"type": "array", "items": [x], "additionalItems": y}
+        yield "tuple-any-closed", {"type": "array", "items": [{}], "additionalItems": False}
+        yield "array-contains", {"type": "array", "contains": x}
+        yield "array-untyped-items", {"items": x}
+        yield "type-list", {"type": [x["type"], y["type"]] if x["type"] != y["type"] else [x["type"], "array"]}
+        yield "type-list-with-array", {"type": ["array", "null"], "items": x}
+        yield "anyOf", {"anyOf": [x, y]}
+        yield "oneOf-with-any", {"oneOf": [x, {}]}
+        yield "allOf", {"allOf": [x, {"description": "more"}]}
+        yield "anyOf-arrays", {"anyOf": [{"type": "array", "items": []}, {"type": "array", "items": [], "additionalItems": False}]}
+        yield "not", {"not": x}
+        yield "const", {"const": [1, "a"]}
+        yield "enum", {"enum": [None, 1, "a"]}
+        yield "class", {"type": "object", "title": "Part", "properties": {"n": x}}
+        yield "class-bare", {"type": "object", "title": "Part"}
+
+    for label, shape in shapes():
+        k = rng.random()
+        holder = {"type": "object", "title": rng.choice(["Holder", "Envelope", "holder of things"]),
+                  "properties": {rng.choice(["value", "attachments", "p"]): shape}}
+        name = next(iter(holder["properties"]))
+        if k < 0.3:
+            holder["required"] = [name]
+        elif k < 0.45 and isinstance(shape, dict):
+            shape["default"] = rng.choice([None, [], 1, "a"])
+        yield label, "property", holder
+        k = rng.random()
+        if k < 0.25:
+            yield label, "items-of-property", {"type": "object", "title": "Holder", "properties": {"values": {"type": "array", "items": copy_of(shape)}}}
+        elif k < 0.45:
+            yield label, "class-in-class", {"type": "object", "title": "Outer", "required": ["inner"],
+                                            "properties": {"inner": {"type": "object", "title": "Inner", "properties": {"v": copy_of(shape)}}}}
+        elif k < 0.6:
+            yield label, "class-under-array", {"type": "array", "items": copy_of(holder)}
+        elif k < 0.7:
+            yield label, "unannotated-places", {"type": "object", "title": "Holder", "additionalProperties": copy_of(shape),
+                                                "patternProperties": {"^x": copy_of(shape)}}
+
+
 def check_case(drv, schema, out, stats):
     rt = round_trip(schema)
     case = {"schema": schema}
@@ -379,8 +490,14 @@ def check_case(drv, schema, out, stats):
     if not nf_good and rep.get("nf"):
         stats["normal-form-although-not-nfGood"] = stats.get("normal-form-although-not-nfGood", 0) + 1
 
+    predicted = {"by-model": agree}
+
     def fail(what, region=None):
-        fid = region if (agree and region in regs) else None
+        # a listed region explains a failure only where the model predicts the very same behaviour of the real code
+        # (first- and second-round documents and trees): what the model does not predict, no finding describes
+        fid = region if (predicted["by-model"] and region in regs) else None
+        if region in regs and fid is None:
+            bump(stats, "oracle-fail-in-region-but-not-as-the-model-predicts")
         out.failures.append({"case": case, "what": what, "finding": fid})
         stats["oracle-fail-" + str(fid)] = stats.get("oracle-fail-" + str(fid), 0) + 1
 
@@ -397,10 +514,23 @@ def check_case(drv, schema, out, stats):
     rep2 = drv.ask({"op": "parse_serialize", "schema": core.enc_val(flat), "tables": core.schema_tables(flat, [])})
     if "error" not in rep2 and not (rep2.get("r") == "ok" and rep2["json"] == strict(j2)):
         out.disagreements.append({"what": "second-round document", "impl": strict(j2), "model": rep2.get("json"), "schema": flat})
+        predicted["by-model"] = False
+    # the two trees of the real code, dumped strictly (Python types of literals explicit, names, flags, order)
+    try:
+        dump1, dump2 = core.dump_elem(rt["el"]), core.dump_elem(rt2["el"])
+    except (TypeError, ValueError, RecursionError):
+        dump1 = dump2 = None
+        bump(stats, "element-comparison-skipped-undumpable")
+    if dump1 is not None and predicted["by-model"]:
+        # the model's trees (after de-duplication renaming) are the real ones: only then does the model predict what follows
+        if rep.get("elem") != dump1 or ("error" not in rep2 and rep2.get("elem") != dump2):
+            predicted["by-model"] = False
+            bump(stats, "model-tree-differs-from-real-tree")
     # the theorem's object on the real code: `toSchema` against the real document, and inside the normal form (`NF`, the
     # hypothesis of C06_partial_round_trip) the second parse must give the very same tree, whatever region the schema is in
     try:
-        dump1, dump2 = core.dump_elem(rt["el"]), core.dump_elem(rt2["el"])
+        if dump1 is None:
+            raise ValueError("undumpable")
         ts = drv.ask({"op": "to_schema", "elem": dump1, "doc": core.enc_val(flat), "tables": core.schema_tables(flat, [])})
     except (TypeError, ValueError, RecursionError):
         ts = {"error": "undumpable"}
@@ -440,25 +570,53 @@ def check_case(drv, schema, out, stats):
         diff = first_diff(j1, j2)
         fail(f"second round differs from the first at {diff}",
              "C06-class-name-suffixes" if "C06-class-name-suffixes" in regs else "C06-empty-keyword-beside-composition")
+    elif dump1 is not None and dump1 != dump2:
+        # Both rounds write the same document, yet the element parsed from it is not the element that was serialized: whatever
+        # distinguishes the two was never written, i.e. a keyword value was lost by the round trip (and stays lost).  Judged on
+        # the real code alone.  Keywords that are present but empty declare nothing and are left aside (counted).
+        if only_empty_keywords_differ(dump1, dump2):
+            bump(stats, "same-document-elements-differ-only-by-empty-properties-or-required")
+        else:
+            bump(stats, "same-document-but-different-element")
+            fail("the element parsed from the first-round document differs from the parsed element although both serialize to the "
+                 "same document (a keyword value is lost by the round trip): " + str(first_diff(declared(dump1), declared(dump2))), None)
+            return
+    elif dump1 is not None:
+        bump(stats, "re-parsed-element-identical")
     stats["round-trips"] = stats.get("round-trips", 0) + 1
     if not document_route(case, j1, j2, out, stats):
         return
     # python half: executing the generated source gives classes equal to the parsed ones
     el = rt["el"]
+    from statham.serializers.orderer import get_object_classes
     try:
-        src = serialize_python(el)
+        classes = list(get_object_classes(el))
     except Exception:  # noqa: BLE001
         return
-    if not src.strip():
+    if not classes:
+        return
+    hazard = hazardous_descriptions(schema)
+    try:
+        src = serialize_python(el)
+    except Exception as exc:  # noqa: BLE001
+        bump(stats, "serialize_python-raises")
+        if not hazard:
+            fail(f"serialize_python raises {type(exc).__name__}: {str(exc)[:160]} on the parsed element ({len(classes)} classes)", None)
         return
     ns = {}
     try:
         exec(compile(src, "<generated>", "exec"), ns)  # noqa: S102 - generated by the library under test
     except Exception as exc:  # noqa: BLE001
-        stats["generated-python-does-not-execute"] = stats.get("generated-python-does-not-execute", 0) + 1
-        return  # C02's concern (unsafe titles / descriptions)
-    from statham.serializers.orderer import get_object_classes
-    for cls in get_object_classes(el):
+        if hazard:
+            # a description that does not survive the triple-quoted docstring: C07-docstring-quoting, C02's region
+            bump(stats, "generated-python-does-not-execute-description-hazard")
+            return
+        bump(stats, "generated-python-does-not-execute")
+        fail(f"the generated Python source does not execute on its own imports ({type(exc).__name__}: {str(exc)[:160]}): "
+             f"it yields none of the {len(classes)} parsed classes", None)
+        return
+    bump(stats, "python-modules-executed")
+    for cls in classes:
         other = ns.get(cls.__name__)
         stats["python-classes-compared"] = stats.get("python-classes-compared", 0) + 1
         if other is None or not (cls == other and other == cls):
@@ -492,10 +650,12 @@ def run(ctx, scale=1.0):
     rng = random.Random(ctx["seed"] + 6)
     out = Outcome()
     out.rule = ("schemas from the generator and the focused families (among them: same-titled classes with different bodies at every pair "
-                "of sub-schema keywords; a class referenced from elsewhere with a boolean/empty schema in each of its sub-schema places); "
+                "of sub-schema keywords; a class referenced from elsewhere with a boolean/empty schema in each of its sub-schema places; a class whose single "
+                "property takes every annotation shape, so that the generated module's imports hang on that one annotation); "
                 "a case is one schema taken through parse -> serialize -> deref -> parse -> serialize (tree route) and through "
                 "parse -> serialize -> JSON text -> shared-target $ref resolution with definitions kept -> parse() -> serialize (document "
-                "route); non-trivial = the schema object has >= 2 keywords; distinct by SHA-256")
+                "route); the re-parsed element is compared with the parsed one and the generated Python module is executed, both on the "
+                "real code alone; non-trivial = the schema object has >= 2 keywords; distinct by SHA-256")
     stats = {}
     drv = core.Driver()
     try:
@@ -520,6 +680,12 @@ def run(ctx, scale=1.0):
             bump(stats, "family-referenced-class-boolean-subschemas")
             bump(stats, "family-referenced-class-" + placed)
             check_case(drv, schema, out, stats)
+        for label, placed, schema in lone_annotation_family(rng):
+            bump(stats, "family-lone-annotation")
+            bump(stats, "family-lone-annotation-" + placed)
+            before = stats.get("python-modules-executed", 0)
+            check_case(drv, schema, out, stats)
+            bump(stats, "family-lone-annotation-modules-executed", stats.get("python-modules-executed", 0) - before)
     finally:
         drv.close()
     # the smallest failing input first (the framework reports the first one)
@@ -536,14 +702,15 @@ def search(ctx, reason):
     return fresh[0] if fresh else None
 
 
-def _fails(schema):
+def _fails(schema, new_only=False):
+    """new_only: failures a listed finding explains (they occur on the unchanged library, too) do not count"""
     out, stats = Outcome(), {}
     drv = core.Driver()
     try:
         check_case(drv, schema, out, stats)
     finally:
         drv.close()
-    return bool(out.failures)
+    return bool([f for f in out.failures if f.get("finding") is None] if new_only else out.failures)
 
 
 def replay_finding(finding):
@@ -551,5 +718,6 @@ def replay_finding(finding):
 
 
 def replay(payload):
-    case = payload.get("failure", {}).get("case")
-    return True if not case else not _fails(case["schema"])
+    failure = payload.get("failure") or {}
+    case = failure.get("case")
+    return True if not case else not _fails(case["schema"], new_only=failure.get("finding") is None)
